@@ -40,3 +40,88 @@ def reverse(routes, dynamic=None, name='VerifRev'):
         _Rev.__name__ = _Rev.__qualname__ = name
         _cache[key] = _Rev
     return _cache[key]
+
+
+def recorder(name, beh=None):
+    """Recording HttpProxyBasePlugin.  `beh`: {hook: (action, arg)} with action in
+    pass | modify | drop | reject.  Every call is appended to World.current.rec."""
+    beh = dict(beh or {})
+    key = ('rec', name, tuple(sorted((k, repr(v)) for k, v in beh.items())))
+    if key in _cache:
+        return _cache[key]
+    common.bind_repo()
+    from proxy.http.proxy import HttpProxyBasePlugin
+    from proxy.http.exception import HttpRequestRejected
+    from . import netmc
+
+    def rec(hook, info=None):
+        w = netmc.World.current
+        if w is not None:
+            if not hasattr(w, 'rec'):
+                w.rec = []
+            w.rec.append((name, hook, info))
+
+    def tags(request):
+        if request is None or not request.headers:
+            return ()
+        return tuple(sorted(v[1] for k, v in request.headers.items() if k.startswith(b'x-tag-')))
+
+    class Rec(HttpProxyBasePlugin):
+        def _req(self, hook, request):
+            rec(hook, (request.method, request.path, tags(request)))
+            act = beh.get(hook, ('pass', None))
+            if act[0] == 'modify':
+                request.add_header(b'X-Tag-' + name.encode(), act[1] or name.encode())
+                return request
+            if act[0] == 'drop':
+                return None
+            if act[0] == 'reject':
+                status, body = act[1]
+                raise HttpRequestRejected(status_code=status, reason=b'Rejected', body=body)
+            return request
+
+        def before_upstream_connection(self, request):
+            return self._req('before_upstream_connection', request)
+
+        def handle_client_request(self, request):
+            return self._req('handle_client_request', request)
+
+        def handle_upstream_chunk(self, chunk):
+            rec('handle_upstream_chunk', bytes(chunk))
+            act = beh.get('handle_upstream_chunk', ('pass', None))
+            if act[0] == 'modify':
+                return memoryview(bytes(chunk).replace(act[1][0], act[1][1]))
+            if act[0] == 'drop':
+                return None
+            return chunk
+
+        def handle_client_data(self, raw):
+            rec('handle_client_data', bytes(raw))
+            act = beh.get('handle_client_data', ('pass', None))
+            if act[0] == 'drop':
+                return None
+            return raw
+
+        def on_upstream_connection_close(self):
+            rec('on_upstream_connection_close', None)
+
+        def on_access_log(self, context):
+            rec('on_access_log', tuple(sorted(k for k in context if k.startswith('tag_'))))
+            act = beh.get('on_access_log', ('pass', None))
+            if act[0] == 'modify':
+                context = dict(context)
+                context['tag_' + name] = 1
+                return context
+            if act[0] == 'drop':
+                return None
+            return context
+
+        def resolve_dns(self, host, port):
+            rec('resolve_dns', (host, port))
+            act = beh.get('resolve_dns', ('pass', None))
+            if act[0] == 'modify':
+                return act[1], None
+            return None, None
+    Rec.__name__ = Rec.__qualname__ = 'VerifRec_%s_%d' % (name, len(_cache))
+    _cache[key] = Rec
+    return Rec
